@@ -1,9 +1,9 @@
 package main
 
 import (
-	"strconv"
 	"go/types"
 	"sort"
+	"strconv"
 	"strings"
 
 	"golang.org/x/tools/go/callgraph"
